@@ -216,6 +216,30 @@ def job(j):
                         now = labmod._slurp(paths0[l][idx])
                         if rf.rc != 0 or chk.rc != 0 or now[:recl[idx]] != bytes0[l][idx][:recl[idx]]:
                             v.append(dict(kind="split-tail-not-rebuilt", where=w6, rc=(rf.rc, chk.rc), size_now=len(now), recorded=recl[idx]))
+                # a used split lost (each in turn, the LAST configured one included) and the user runs sync instead of fix: the
+                # parity-size interlock refuses - no file re-created empty and quietly taken for parity - then fix rebuilds it
+                for l in range(levels):
+                    recl = rec[l] if rec[l] is not None else None
+                    if recl is None or len(paths0[l]) < 2:
+                        continue
+                    for idx in range(len(paths0[l])):
+                        if idx >= len(recl) or not recl[idx]:
+                            continue
+                        Ls.restore(S0)
+                        os.unlink(paths0[l][idx])
+                        rs_ = Ls.run("sync")
+                        w7 = where + " | split %d of %d of level %d lost, sync" % (idx, len(paths0[l]), l)
+                        steps += 1
+                        if rs_.rc == 0:
+                            v.append(dict(kind="sync-accepts-a-lost-split", where=w7, out=rs_.text()[-300:]))
+                            for o in X.c06(Ls, w7):
+                                o["kind"] = "after-accepted-sync-" + o["kind"]
+                                v.append(o)
+                            continue
+                        rf = Ls.run("fix")
+                        chk = Ls.run("check")
+                        if rf.rc != 0 or chk.rc != 0:
+                            v.append(dict(kind="split-not-rebuilt-after-refused-sync", where=w7, rc=(rf.rc, chk.rc)))
                 # the whole parity disk (directory) holding one split is gone, together with a data disk: with a second level fix
                 # --force-device must drop the dead level and rebuild the data from the other one; once the directory is back a plain
                 # fix re-creates the split in place
